@@ -16,6 +16,15 @@ CHECKS = [
            'path-with-hops and derived-helper query is executed and compared with an oracle computed from the node and edge lists.',
       note='Graph sizes beyond the bound are not covered. For path-with-hops only what both readings of "loop-free" agree on is asserted. '
            'Multiplicity of duplicate answers of helper queries is not judged.'),
+ dict(property_id='C04', engine='E1-bfs', level='model_checking',
+      technique='model checking: explicit-state BFS over store operation histories on the real stores, frame-condition oracle',
+      text='Breadth-first search over all histories (depth 3 quick / 4 thorough, from an empty and a rich root) of ~60 graph operations '
+           'on three graph ids that deliberately share NodeIDs and whose payload keys collide with internal ids, on both store flavours. '
+           'Every transition is executed on the real store from a restored snapshot; the oracle is the frame condition (every other graph '
+           'canonically unchanged), store integrity (no orphan / cross-graph edges), read-path isolation through the public API, clone '
+           'content equality, and two look-ahead allocation probes in every reached state.',
+      note='Alphabet values are short strings; depth bound as stated in evidence; state canonicalisation keeps the internal-id layout '
+           'signature so that states with different allocator futures are never merged.'),
 ]
 _claimed = {c['property_id'] for c in CHECKS}
 NOT_APPLICABLE = [dict(property_id=p, reason='check not built yet in this revision (work in progress; model checking applies, see DESIGN.md)')
